@@ -12,7 +12,7 @@ def _cvc5_version():
         return None
 
 
-def write(pid, tier, seed, harness, conds, results, violations, harness_errors, kf_lines, validated, wall, conf=None):
+def write(pid, tier, seed, harness, conds, results, violations, harness_errors, kf_lines, validated, wall, conf=None, corpus_replayed=0):
     import z3
     rs = [results[c.id] for c in conds]
     samples = []
@@ -31,14 +31,16 @@ def write(pid, tier, seed, harness, conds, results, violations, harness_errors, 
     cov = {
         "states": max(1, sum(int(r["paths"]) for r in rs)),
         "transitions": max(1, sum(int(r["queries"]) for r in rs)),
-        "traces_validated_against_impl": int(validated),
+        "traces_validated_against_impl": int(validated) + int(corpus_replayed),
+        "corpus_witnesses_replayed": int(corpus_replayed),
         "samples": samples,
         "exhaustive": bool(rs) and confirmed == len(rs) and (conf or {}).get("ok") is not False,
         "model_conformance": conf or {"ok": None},
         "explanation": "states = execution paths of the real pyrepseq code explored symbolically (each path = one "
                        "equivalence class of inputs); transitions = SMT queries discharged; "
                        "traces_validated = solver-produced witnesses re-executed on the real, unmodelled stack "
-                       "against an independent concrete oracle",
+                       "against an independent concrete oracle (this run's witnesses + the committed corpus of witnesses "
+                       "the solver produced on the unchanged tree, corpus/<id>.json)",
         "functions_encoded": enc,
         "bounds": getattr(harness, "BOUNDS", ""),
         "outside_bounds": getattr(harness, "OUTSIDE", []),
@@ -56,6 +58,7 @@ def write(pid, tier, seed, harness, conds, results, violations, harness_errors, 
                        for c in conds],
         "models_used": sorted({m for c in conds for m in c.models}),
         "unmodelled_library_names_touched": sorted({f for r in rs for f in r.get("fallthrough", [])}),
+        "library_calls_lifted_to_real_library": sorted({f for r in rs for f in r.get("lifted", [])}),
         "known_findings_reported": kf_lines,
         "harness_errors": harness_errors,
         "solver_versions": {"z3": z3.get_version_string(), "cvc5": _cvc5_version()},
